@@ -13,7 +13,7 @@ from native import mdibtools as mt
 KINDS = ('metric', 'alert', 'component', 'operational', 'context', 'location', 'rt', 'descr_update', 'descr_create',
          'descr_delete', 'descr_recreate', 'descr_create_siblings', 'descr_delete_siblings', 'mixed_descr_and_state',
          'entity_state', 'entity_context', 'entity_descriptor', 'stale_entity', 'descr_update_context',
-         'entity_descriptor_context', 'entity_remove_recreate')
+         'entity_descriptor_context', 'entity_remove_recreate', 'entity_new_tree', 'entity_write_many')
 
 
 class History:
@@ -282,6 +282,40 @@ class History:
         with self.mdib.descriptor_transaction() as tr:
             tr.write_entity(ent)
         return [handle]
+
+    def do_entity_new_tree(self):
+        """A new channel with two new metrics below it, created as entities and written with write_entities
+        (children listed before the parent: the transaction has to order them)."""
+        vmds = sorted(d.Handle for d in self.mdib.descriptions.objects if d.NODETYPE == pm.VmdDescriptor)
+        if not vmds:
+            return self.do_descr_create()
+        vmd = self.rnd.choice(vmds)
+        ch = 'verif_ch_%d' % self.counter
+        ents = self.mdib.entities
+        channel = ents.new_entity(pm.ChannelDescriptor, ch, vmd)
+        # children of a parent that does not exist yet cannot be made with new_entity: build them directly
+        from sdc11073.mdib import mdibbase as _mb
+        kids = []
+        for i in range(2):
+            h = 'verif_chm_%d_%d' % (self.counter, i)
+            d = self._new_descriptor(h, ch)
+            d.set_source_mds(channel.descriptor.source_mds)
+            st = self.mdib.data_model.mk_state_container(d)
+            kids.append(_mb.Entity(self.mdib, d, st))
+        with self.mdib.descriptor_transaction() as tr:
+            tr.write_entities(kids + [channel])
+        for k in kids:
+            self.created.append((k.handle, ch))
+        return [ch] + [k.handle for k in kids]
+
+    def do_entity_write_many(self):
+        hs = self._pick(mt.metric_handles(self.mdib), 2, 3)
+        ents = [self.mdib.entities.by_handle(h) for h in hs]
+        for e in ents:
+            e.state.ActivationState = self.rnd.choice(list(pm_types.ComponentActivation))
+        with self.mdib.metric_state_transaction() as tr:
+            tr.write_entities(ents)
+        return hs
 
     def do_stale_entity(self):
         """An entity read BEFORE its descriptor is updated is written afterwards (single state or context state)."""
